@@ -222,7 +222,12 @@ def _dowdom(ctx, rep, eng):
              [("pred", "isDOW"), ("pred", "isDOM")]]
     for rule in rules:
         c = rule_construct(rule, "weekday + day of month")
-        calls = [n for n in ast.walk(rule.node) if isinstance(n, ast.Call) and
+        # the rule as the inlined view has it (narrowing helpers such as 'assert x is not None;
+        # return x' are gone there), with single-assignment locals resolved
+        inode = ctx.imod(rule.mod.name).funcs.get(rule.name, rule.node)
+        from .common import alias_map, resolve_alias
+        amap = alias_map(inode)
+        calls = [n for n in ast.walk(inode) if isinstance(n, ast.Call) and
                  isinstance(n.func, ast.Name) and n.func.id == "rrule"]
         if not calls:
             # another search idiom: the nearest-future obligation cannot be evaluated
@@ -232,13 +237,23 @@ def _dowdom(ctx, rep, eng):
         # dateutil's signature, so that positional and keyword spellings read the same
         sig = ["freq", "dtstart", "interval", "wkst", "count", "until", "bysetpos", "bymonth",
                "bymonthday", "byyearday", "byeaster", "byweekno", "byweekday"]
-        kw = {name: norm(a) for name, a in zip(sig, call.args)}
-        kw.update({k.arg: norm(k.value) for k in call.keywords})
+        kw = {name: resolve_alias(norm(a), amap) for name, a in zip(sig, call.args)}
+        kw.update({k.arg: resolve_alias(norm(k.value), amap) for k in call.keywords})
         p1, p2 = rule.params[1], rule.params[2]
         extra = set(kw) - {"freq", "dtstart", "count", "bymonthday", "byweekday"}
         ok = kw.get("dtstart") == rule.params[0] and kw.get("byweekday") == p1 + ".DOW" and \
             kw.get("bymonthday") == p2 + ".day" and kw.get("count") == "1" and \
             kw.get("freq") in ("MONTHLY", "DAILY") and not extra
+        # an argument this clause can read and that is something else is a violation; an argument
+        # it cannot read (a helper call, a computed value) is not decided
+        readable = {rule.params[0], p1 + ".DOW", p2 + ".day", p1 + ".day", p2 + ".DOW", "1", "MONTHLY", "DAILY",
+                    "WEEKLY", "YEARLY"}
+        unreadable = [k_ for k_ in ("dtstart", "byweekday", "bymonthday", "count", "freq")
+                      if k_ in kw and kw[k_] not in readable and not kw[k_].isdigit()]
+        if not ok and unreadable and not extra:
+            rep.undecided("weekday-dom-search", c, rule.where,
+                          "rrule argument(s) {} not recognised: {}".format(unreadable, {k_: kw[k_] for k_ in unreadable}))
+            continue
         rep.add("weekday-dom-search", c, rule.where, bool(ok),
                 "" if ok else "rrule arguments are {}".format(kw))
 
